@@ -15,8 +15,10 @@ Hang trap: the clock is always advanced to the next scheduled deadline before `_
 the selector never blocks (timeout forced to 0), and every case runs under a step budget.
 """
 import asyncio
+import gc
 import itertools
 import json
+import weakref
 
 from . import common
 from .common import Driver
@@ -73,6 +75,7 @@ class VLoop(asyncio.SelectorEventLoop):
         self.next_id = 0
         self.recs = {}            # id(handle) -> dict(id, th, handle)
         self.current = None
+        self.creating = None      # index of the timer being created (its first handle)
         self.on_exit = None
         orig = self._selector.select
         self._selector.select = lambda timeout=None: orig(0)      # never block on a virtual clock
@@ -87,7 +90,10 @@ class VLoop(asyncio.SelectorEventLoop):
     def _wrap(self, callback, args):
         hid = self.next_id
         self.next_id += 1
-        rec = dict(id=hid, th=args[0] if args else None, handle=None)
+        # owner = the timer being created, else the timer whose handle is running; the harness
+        # keeps NO reference to the KGTimerHandler passed in `args` (it must not keep it alive)
+        owner = self.creating if self.creating is not None else (self.current["k"] if self.current else None)
+        rec = dict(id=hid, k=owner, handle=None)
 
         def shim(*a):
             self.current = rec
@@ -130,7 +136,12 @@ def ticks_of(x):
 class Real:
     """One scenario on the real code.  `case` is JSON-able:
        res, minadv, t0, path ('klong'|'direct'), steps: list of
-         ["create", interval_ticks, script]      script = list of [adv_extra, dur, ret, act, drift]
+         ["create", interval_ticks, script, hold] script = list of [adv_extra, dur, ret, act, drift];
+                                                 hold (optional) = "keep": th_k::.timer(...) |
+                                                 "drop": bare `.timer(...)`, result discarded |
+                                                 "over:j": th_j::.timer(...) (timer j's handle is no
+                                                 longer referenced by the program)
+         ["forget", k]                           th_k::0 - the program drops its reference
          ["pass", lat]                           run the loop once at (next deadline + lat)
          ["timerc", k] | ["redefine", k, v] | ["advance", d]
     """
@@ -142,7 +153,11 @@ class Real:
         self.loop.set_exception_handler(lambda l, c: self.exc.append(repr(c.get("exception"))))
         self.loop.on_exit = self._on_exit
         self.exc = []
-        self.ths = []           # KGTimerHandler per timer
+        self.ths = []           # per timer: callable -> KGTimerHandler or None (strong only while the
+                                # program itself retains the handle; a weakref afterwards)
+        self.var = []           # per timer: name of the Klong variable holding the handle, or None
+        self.weak_mode = False
+        self.collect_due = False
         self.meta = []          # per timer: dict(start, interval, script, runs)
         self.obs = []           # all observed events, in order (strings in the model's format)
         self.cur = []           # events of the handle now running
@@ -158,22 +173,17 @@ class Real:
             self.klong["tk"] = lambda x, y: self.hook(int(x), int(y))
 
     # ---- observation helpers
-    def tindex(self, th):
-        for i, t in enumerate(self.ths):
-            if t is th:
-                return i
-        return len(self.ths)      # being created right now
-
     def digest(self):
         L = self.loop
         items = []
         for rec in sorted(L.pending(), key=lambda r: r["id"]):
             h = rec["handle"]
             w = f"{ticks_of(h.when())}" if isinstance(h, asyncio.TimerHandle) else "soon"
-            items.append(f"{rec['id']}:{self.tindex(rec['th'])}:{w}")
+            items.append(f"{rec['id']}:{rec['k']}:{w}")
         dels = []
-        for k, th in enumerate(self.ths):
-            d = th.delegate
+        for k, get in enumerate(self.ths):
+            th = get()
+            d = th.delegate if th is not None else None     # a collected handler has no delegate
             dels.append(f"{k}:-" if d is None else f"{k}:{L.recs[id(d)]['id'] if id(d) in L.recs else '?'}")
         return f"now={L.t} pending={','.join(items)} delegates={','.join(dels)}"
 
@@ -191,6 +201,12 @@ class Real:
             m = self.meta[k]
             sp = m["script"].pop(0) if m["script"] else [0, 0, 0, "none", 0]
             adv_extra, dur, ret, act, drift = sp
+            # a `.timerc` needs the handle: the program cannot issue it on a timer it forgot
+            if act == "self" and not self.held(k):
+                act = "none"
+            elif act.startswith("other:") and int(act.split(":")[1]) < len(self.ths) \
+                    and not self.held(int(act.split(":")[1])):
+                act = "none"
             adv = (0 if self.frozen else self.minadv) + adv_extra
             t_dec = L.t
             L.t += adv
@@ -247,10 +263,26 @@ class Real:
         self.disp.append((line, impl))
 
     # ---- operations
+    def held(self, k):
+        return k < len(self.ths) and self.var[k] is not None
+
+    def forget(self, k):
+        """the program drops its reference to timer k's handle (th::0 / variable reused)"""
+        if not self.held(k):
+            return
+        th = self.ths[k]()
+        if self.klong:
+            self.klong(f"{self.var[k]}::0")
+        self.var[k] = None
+        self.ths[k] = weakref.ref(th)
+        del th
+        self.weak_mode = self.collect_due = True
+        self.ctx.bump("handle-forgotten")
+
     def do_timerc(self, k, inside=None):
         from klongpy.sys_fn_timer import eval_sys_fn_cancel_timer
         if k < len(self.ths):
-            r = self.klong(f".timerc(th{k})") if self.klong else eval_sys_fn_cancel_timer(self.ths[k])
+            r = self.klong(f".timerc({self.var[k]})") if self.klong else eval_sys_fn_cancel_timer(self.ths[k]())
         else:
             r = self.klong(".timerc(0)") if self.klong else eval_sys_fn_cancel_timer(0)
         r = int(r)
@@ -266,21 +298,47 @@ class Real:
         self.emit(f"redefined:{k}:{v}")
         self.spec.redefined(k, v)
 
-    def do_create(self, interval, script):
+    def do_create(self, interval, script, hold="keep"):
         from klongpy.sys_fn_timer import _call_periodic, KGTimerHandler
         k = len(self.ths)
         L = self.loop
+        over = None
+        if hold.startswith("over:"):
+            over = int(hold.split(":")[1])
+            if not self.held(over):
+                hold, over = "keep", None
         self.meta.append(dict(start=L.t, interval=interval, script=[list(s) for s in script], runs=0, pyver=0))
-        if self.klong:
-            assert interval % SEC == 0
-            self.klong(f"cb{k}::{{tk({k};0)}}")
-            th = self.klong(f'th{k}::.timer("t{k}";{interval // SEC};cb{k})')
-        else:
-            th = _call_periodic(L, f"t{k}", interval * TICK if interval else 0,
-                                lambda k=k: self.hook(k, self.meta[k]["pyver"]))
+        var = f"th{k}" if over is None else self.var[over]
+        L.creating = k
+        try:
+            if self.klong:
+                assert interval % SEC == 0
+                self.klong(f"cb{k}::{{tk({k};0)}}")
+                call = f'.timer("t{k}";{interval // SEC};cb{k})'
+                th = self.klong(call if hold == "drop" else f"{var}::{call}")
+            else:
+                th = _call_periodic(L, f"t{k}", interval * TICK if interval else 0,
+                                    lambda k=k: self.hook(k, self.meta[k]["pyver"]))
+        finally:
+            L.creating = None
         if not isinstance(th, KGTimerHandler):
             raise RuntimeError(f".timer returned {th!r}")
-        self.ths.append(th)
+        if over is not None:        # the variable now names the new timer: the old handle is unreferenced
+            old = self.ths[over]()
+            self.ths[over] = weakref.ref(old)
+            self.var[over] = None
+            del old
+            self.weak_mode = self.collect_due = True
+            self.ctx.bump("handle-overwritten")
+        if hold == "drop":          # fire and forget: nobody keeps the value `.timer` returned
+            self.ths.append(weakref.ref(th))
+            self.var.append(None)
+            self.weak_mode = self.collect_due = True
+            self.ctx.bump("handle-dropped")
+        else:
+            self.ths.append(lambda th=th: th)
+            self.var.append(var)
+        del th
         self.emit(f"created:{k}:{self.meta[k]['start']}:{interval}")
         self.spec.created(k, self.meta[k]["start"], interval)
 
@@ -330,15 +388,21 @@ class Real:
                 if budget < 0:
                     raise Budget()
                 op = st[0]
+                if self.weak_mode and self.collect_due:
+                    gc.collect()        # CPython frees an unreferenced handler at once; make it explicit
+                    self.collect_due = False
                 if op == "create":
-                    self.do_create(st[1], st[2])
+                    self.do_create(st[1], st[2], st[3] if len(st) > 3 else "keep")
                     self.sync(f"create interval={st[1]}")
+                elif op == "forget":
+                    self.forget(st[1])
                 elif op == "advance":
                     L.t += st[1]
                     self.sync(f"advance d={st[1]}")
                 elif op == "timerc":
-                    self.do_timerc(st[1])
-                    self.sync(f"timerc k={st[1]}")
+                    if st[1] >= len(self.ths) or self.held(st[1]):     # needs the handle
+                        self.do_timerc(st[1])
+                        self.sync(f"timerc k={st[1]}")
                 elif op == "redefine":
                     if st[1] < len(self.ths):
                         self.do_redefine(st[1], st[2])
@@ -353,6 +417,8 @@ class Real:
 
     def do_pass(self, lat):
         L = self.loop
+        if self.weak_mode:
+            gc.collect(0)
         pend = L.pending()
         if not pend:
             if self.spec.next_due(L.t) is not None and not self.spec.dead:
@@ -529,7 +595,8 @@ def gen_case(rng, long=False):
     for i in range(nt):
         iv = rng.choice(ivs)
         intervals.append(iv)
-        steps.append(["create", iv, gen_script(rng, rng.randrange(2, 12 if long else 8), iv, nt)])
+        steps.append(["create", iv, gen_script(rng, rng.randrange(2, 12 if long else 8), iv, nt),
+                      rng.choice(["keep", "keep", "keep", "drop"])])
         if rng.random() < 0.5:
             steps.append(["advance", rng.choice([1, 2, 3, 100, SEC // 2])])
     npass = rng.randrange(3, 30 if long else 12)
@@ -542,10 +609,13 @@ def gen_case(rng, long=False):
             steps.append(["timerc", rng.choice(list(range(nt)) + [nt])])
         elif r < 0.90:
             steps.append(["redefine", rng.randrange(nt), rng.choice([1, 2, 4])])
-        elif r < 0.95 and len(intervals) < 4:
+        elif r < 0.93:
+            steps.append(["forget", rng.randrange(nt)])
+        elif r < 0.97 and len(intervals) < 4:
             iv2 = rng.choice(ivs)
             intervals.append(iv2)
-            steps.append(["create", iv2, gen_script(rng, rng.randrange(1, 5), iv2, nt)])
+            steps.append(["create", iv2, gen_script(rng, rng.randrange(1, 5), iv2, nt),
+                          rng.choice(["keep", "drop", f"over:{rng.randrange(nt)}"])])
         else:
             steps.append(["advance", rng.choice([0, 1, 5, SEC])])
     return dict(path=path, res=res, minadv=minadv, t0=t0, steps=steps)
@@ -565,10 +635,11 @@ def enum_cases():
             lat = lats[si % 4]
             t0 = [1000 * SEC, 1000 * SEC + 341][si % 2]
             ext = si % 5          # external .timerc after this many passes (4 = never)
-            steps = [["create", iv, script + [[0, 0, 1, "none", 0]] * 2]]
+            hold = "drop" if si % 7 == 3 else "keep"      # fire-and-forget `.timer(...)`
+            steps = [["create", iv, script + [[0, 0, 1, "none", 0]] * 2, hold]]
             for p in range(5):
                 if p == ext:
-                    steps.append(["timerc", 0])
+                    steps.append(["forget", 0] if si % 7 == 5 else ["timerc", 0])
                 steps.append(["pass", lat])
             steps.append(["timerc", 0])
             yield dict(path="klong" if si % 3 == 0 else "direct", res=2, minadv=2, t0=t0, steps=steps)
@@ -586,6 +657,21 @@ WITNESSES = [
         ["create", SEC, [[0, 0, 1, "raise", 0]]], ["pass", 0], ["timerc", 0], ["pass", 0]]),
     dict(path="direct", res=1, minadv=1, t0=7, steps=[
         ["create", 0, [[0, 1, 1, "none", 0], [0, 0, 1, "self", 0]]], ["pass", 0], ["pass", 0], ["pass", 0], ["timerc", 0]]),
+    # the handle is not retained: a live timer keeps ticking until its callback returns false
+    # fire and forget: `.timer("t0";1;cb0)` as a bare statement
+    dict(path="klong", res=2, minadv=2, t0=1000 * SEC, steps=[
+        ["create", SEC, [[0, 0, 1, "none", 0]] * 5 + [[0, 0, 0, "none", 0]], "drop"]] + [["pass", 0]] * 8),
+    # th0::.timer(a), two ticks, th0::.timer(b): timer a goes on next to b
+    dict(path="klong", res=2, minadv=2, t0=1000 * SEC, steps=[
+        ["create", SEC, [[0, 0, 1, "none", 0]] * 7 + [[0, 0, 0, "none", 0]]], ["pass", 0], ["pass", 0],
+        ["advance", SEC // 2], ["create", SEC, [[0, 0, 1, "none", 0]] * 4, "over:0"]] + [["pass", 0]] * 14),
+    # th0::.timer(...), a tick, th0::0
+    dict(path="klong", res=2, minadv=2, t0=1000 * SEC + 3, steps=[
+        ["create", 2 * SEC, [[0, 0, 1, "none", 0]] * 4 + [[0, 0, 0, "none", 0]]], ["pass", 0],
+        ["forget", 0]] + [["pass", 0]] * 6),
+    dict(path="direct", res=1, minadv=1, t0=11, steps=[
+        ["create", 3, [[0, 1, 1, "none", 0]] * 4, "drop"], ["create", 0, [[0, 0, 1, "none", 0]] * 3, "drop"]]
+        + [["pass", 0]] * 10),
 ]
 
 
@@ -631,6 +717,7 @@ def float_exploration(ctx):
                 return self.ft
         L = FLoop(0, 1)
         L._clock_resolution = 1e-9
+        L.set_exception_handler(lambda l, c: None)
         L.ft = rng.uniform(0, 1e6)
         interval = rng.choice([1, 2, 5, 0.1, 0.3])
         start = L.ft
@@ -665,7 +752,8 @@ def run(ctx):
                 "_call_periodic with tick-sized intervals) x callback scripts (duration, truthy/false return, action none/"
                 "cancel self/cancel other/redefine/raise, call_later drift) x start times x loop passes at latency {on the "
                 "deadline, within resolution before it, too early, +1/3 interval, +1 1/3 interval, random} x external "
-                ".timerc / redefinition / creation between passes; distinct = distinct scenarios; non-trivial = at least two ticks")
+                ".timerc / redefinition / creation between passes x handle retention (th::.timer(...) kept, bare .timer(...) "
+                "discarded, th::0 or th::.timer(<second>) later, with gc.collect()); distinct = distinct scenarios; non-trivial = at least two ticks")
     ctx.assumptions += [
         "earliness < minAdvance: at least one loop resolution passes between the loop's dispatch decision and the "
         "callback's start (the virtual loop advances the clock on entry to every handle); the frozen-clock regime is "
